@@ -169,11 +169,25 @@ def r12_1(ctx, rep):
             else:
                 p = parent(n_)
                 ok = isinstance(p, ast.Call) and p.func is n_ and len(p.args) == 1 and isinstance(p.args[0], ast.Call) \
-                    and call_name(p.args[0]) == "ca.Function" and isinstance(parent(p), ast.Return)
+                    and call_name(p.args[0]) == "ca.Function" and (isinstance(parent(p), ast.Return) or _only_returned(parent(p)))
                 n += 1
                 rep.ob(R, MODEL + ":" + fn, "use of _expand_mx_func", ok, "the wrapper may only wrap the ca.Function a function property returns")
     if n < 15:
         raise MechanismMissing(R, "only %d option uses found, expected >= 15" % n)
+
+
+def _only_returned(st):
+    """`name = <wrapped function>` where the name's only use in the method is `return name` (the shape a shared builder of two function
+    properties has once it is folded back into them)"""
+    if not (isinstance(st, ast.Assign) and len(st.targets) == 1 and isinstance(st.targets[0], ast.Name)):
+        return False
+    host = st
+    while host is not None and not isinstance(host, ast.FunctionDef):
+        host = parent(host)
+    if host is None:
+        return False
+    loads = [x for x in ast.walk(host) if isinstance(x, ast.Name) and x.id == st.targets[0].id and isinstance(x.ctx, ast.Load)]
+    return bool(loads) and all(isinstance(parent(x), ast.Return) for x in loads)
 
 
 def _tri(test, env):
